@@ -19,7 +19,7 @@ ASSUMPTIONS = ["band: -eps <= v*-x <= threshold*T + eps, T = exact max expected 
 TIMEOUT = 1800
 
 CLASSES_Q = [("G-ACY", 700), ("G-ACYNF", 200), ("G-CYC", 700), ("G-CYCNF", 150), ("G-SLOW", 250), ("G-EC", 500),
-             ("G-TIE", 250), ("G-TIEC", 250), ("G-DEAD", 500), ("G-TINY", 150), ("G-LEX", 250), ("G-TINYB", 200), ("G-INIT0F", 100), ("G-INIT0NF", 100), ("G-NOREACH", 100), ("G-NEARC", 100), ("G-MIX", 500), ("G-SMALLX", 500), ("G-VSLOWR", 4), ("G-LATE", 200), ("G-HALF", 60)]
+             ("G-TIE", 250), ("G-TIEC", 250), ("G-DEAD", 500), ("G-TINY", 150), ("G-LEX", 250), ("G-TINYB", 200), ("G-INIT0F", 100), ("G-INIT0NF", 100), ("G-NOREACH", 100), ("G-NEARC", 100), ("G-MIX", 500), ("G-SMALLX", 500), ("G-VSLOWR", 2), ("G-LATE", 200), ("G-HALF", 60)]
 THRESHOLDS = [1e-2, 1e-4, 1e-9]
 
 
@@ -111,8 +111,11 @@ def decide(gd, idx, cls, do_thresholds=True, do_run_games=False):
         res["stats"]["pruned_nosol"] = 1
     else:
         res["stats"]["pruned_no_result"] = 1
+    slow_game = out_n.result[4] > 20000 or out_n.result[5] > 20000
+    if slow_game:
+        do_thresholds = do_run_games = False          # tens of thousands of sweeps per solve: the two plain solves are enough here
     # the same StochasticGame object solved in both modes, in either order, must report the same probabilities
-    if out_p.status in ("ok", "nosol"):
+    if out_p.status in ("ok", "nosol") and not slow_game:
         desc = games.to_solver(gd)
         order = (True, False) if idx % 2 == 0 else (False, True)
         sg = tad.StochasticGame(desc["rewards"], desc["players"], desc["transition_list"], desc["final_states"], prune_states=order[0])
